@@ -16,6 +16,10 @@
      "many"     {"s":k,"ps":[i,j,..],...}             parse once, execute each           ledger statement outside the model)
      "fresh"    {"s":k,"ps":[i],...}                  execute(text) on a NEW connection over the same data (no history at
                                                       all: the reference every other execution must agree with)
+                {.., "process":"new","order":o}       the same in a NEW process that executes nothing but these references,
+                                                      o = "backwards" | "forwards": the order in which it takes the statements
+                                                      (two of them that share anything process-wide -- a constant both
+                                                      hand to different operators, say -- meet it in either order)
                 {.., "literal":text}                  the same on a new connection with the parameter values WRITTEN AS LITERALS
                                                       into the text: what DenoteStmt defines the parametrised result to be
      "fold"     {"folded":V,"perrow":V,"params":V}    a constant expression folded by the compiler / evaluated per row
